@@ -135,6 +135,7 @@ fn spaces(id: &str, tier: Tier) -> Vec<Box<dyn Space>> {
             v.push(Box::new(ms_e_runs(if t { 2 } else { 1 })));
             v.push(Box::new(scale_family(true)));
             v.push(Box::new(sorted_run_family()));
+            v.push(Box::new(r8_metadata_family()));
             v.push(Box::new(unicode_family()));
             if t {
                 v.push(Box::new(ms_a_depth3()));
@@ -151,6 +152,7 @@ fn spaces(id: &str, tier: Tier) -> Vec<Box<dyn Space>> {
             v.push(Box::new(unicode_family()));
             // noise lines (incl. R8's indented member comments) inside inline groups: "followed by" looks through them
             v.push(Box::new(ms_e(if t { 2 } else { 1 })));
+            v.push(Box::new(r8_metadata_family()));
             // obfuscated ranges that are equal only modulo 2^32: distinct ranges, no inline group
             {
                 let big = 1u64 << 32;
